@@ -540,16 +540,17 @@ class Guard(Component):
         self.silent_rejects = []     # node
         self.wrong_exc = []          # (ev, exc)
         self.guard_sites = []        # (node, op, strict)
+        self.nan_writes = []         # writes reached under a test that NaN passes (`not value <= 0` form)
         self.scratch = set()
 
     def init(self, interp):
-        return {"pos": frozenset(), "neg": frozenset()}
+        return {"pos": frozenset(), "neg": frozenset(), "nansafe": frozenset()}
 
     def copy(self, v):
         return dict(v)
 
     def join(self, a, b):
-        return {"pos": a["pos"] & b["pos"], "neg": a["neg"] | b["neg"]}
+        return {"pos": a["pos"] & b["pos"], "neg": a["neg"] | b["neg"], "nansafe": a.get("nansafe", frozenset()) & b.get("nansafe", frozenset())}
 
     def _classify(self, tv):
         """-> (positive_truth: bool, strict: bool, node) if the test is a positivity test on the parameter."""
@@ -560,7 +561,7 @@ class Guard(Component):
             r = self._classify(x[1])
             if r is None:
                 return None
-            return (not r[0], r[1], r[2])
+            return (not r[0], r[1], r[2], r[3])
         if x[0] == "cmp":
             node, left, rights = x[1], x[2], x[3]
             if len(rights) != 1:
@@ -570,36 +571,43 @@ class Guard(Component):
             lz = left.is_number_const() and left.const == 0
             rz = right.is_number_const() and right.const == 0
             if rz and self.param in left.guardp:
+                # 4th item: the accepting side is the one where the primitive comparison is *true* (a NaN target makes every
+                # comparison false: it is refused by `value > 0` but slips through `not value <= 0`)
                 if isinstance(op, ast.Gt):
-                    return (True, True, node)
+                    return (True, True, node, True)
                 if isinstance(op, ast.GtE):
-                    return (True, False, node)
+                    return (True, False, node, True)
                 if isinstance(op, ast.LtE):
-                    return (False, True, node)
+                    return (False, True, node, False)
                 if isinstance(op, ast.Lt):
-                    return (False, False, node)
+                    return (False, False, node, False)
             if lz and self.param in right.guardp:
                 if isinstance(op, ast.Lt):
-                    return (True, True, node)
+                    return (True, True, node, True)
                 if isinstance(op, ast.LtE):
-                    return (True, False, node)
+                    return (True, False, node, True)
                 if isinstance(op, ast.GtE):
-                    return (False, True, node)
+                    return (False, True, node, False)
                 if isinstance(op, ast.Gt):
-                    return (False, False, node)
+                    return (False, False, node, False)
         return None
 
     def on_branch(self, interp, st, test_node, tv, truth):
         r = self._classify(tv)
         if r is None:
+            if self.param in tv.pdeps and any(isinstance(t, tuple) and t[0] == "ret" and t[1].rsplit(".", 1)[-1] in ("isfinite", "isnan") for t in tv.tags):
+                cur = st.comp[self.name]
+                st.comp[self.name] = dict(cur, nansafe=cur.get("nansafe", frozenset()) | {"isfinite"})
             return
-        pos_truth, strict, node = r
+        pos_truth, strict, node, accept_true = r
         cur = st.comp[self.name]
+        ns = cur.get("nansafe", frozenset())
         if truth == pos_truth:
-            st.comp[self.name] = {"pos": cur["pos"] | {("strict" if strict else "nonneg")}, "neg": cur["neg"]}
+            st.comp[self.name] = {"pos": cur["pos"] | {("strict" if strict else "nonneg")}, "neg": cur["neg"],
+                                  "nansafe": ns | ({"cmp"} if accept_true else frozenset())}
             self.guard_sites.append((node, strict, interp.frames[-1].fn.qualname))
         else:
-            st.comp[self.name] = {"pos": cur["pos"], "neg": cur["neg"] | {"neg"}}
+            st.comp[self.name] = {"pos": cur["pos"], "neg": cur["neg"] | {"neg"}, "nansafe": ns}
 
     def on_event(self, interp, st, ev):
         cur = st.comp[self.name]
@@ -611,6 +619,8 @@ class Guard(Component):
                 return
             if not cur["pos"]:
                 self.unguarded_writes.append(ev)
+            elif not cur.get("nansafe"):
+                self.nan_writes.append(ev)
         elif ev.type == "raise":
             if cur["neg"] and not cur["pos"] and ev.exc != "ValueError":
                 self.wrong_exc.append((ev, ev.exc))
